@@ -357,7 +357,14 @@ Ltac eqb_norm :=
 Lemma exec_pause_dj1 (s : st) m d s' c o : mcmd m = CPause d -> exec_cmd dev s m = (s', c, o) -> dj1 s -> dj1 s'.
 Proof.
   intros Ec Ex Hd. destruct (RE_Inv.exec_cmd_pause _ _ dev _ _ _ _ _ _ Ec Ex) as (e & o' & Hrp & _).
-  eapply request_pause_dj1; eassumption.
+  (* the in-task variant (repair C10-a) only ever restores must_cancel to its previous value *)
+  unfold request_pause_in_task in Hrp. destruct (request_pause s d) as [[s1 e1] o1] eqn:E.
+  destruct (resumable s); inversion Hrp; subst; clear Hrp.
+  - eapply request_pause_dj1; eassumption.
+  - apply RE_Inv.request_pause_spec in E. destruct E as [E|E].
+    + destruct E as [[E _] _]. unfold RE_Inv.same in E. destruct E as (A & _ & B & _).
+      unfold dj1 in *. cbn. rewrite A. exact Hd.
+    + unfold RE_Inv.pause_acc in E. destruct E as (_ & A & _). unfold dj1. cbn. rewrite A. intros _. split; discriminate.
 Qed.
 
 Lemma dstep_dj1 (s : st) c r0 :
@@ -627,9 +634,11 @@ Qed.
 Lemma exec_pause_defer_A i0 (s : st) m s' c o :
   mcmd m = CPause true -> R3 i0 s -> exec_cmd dev s m = (s', c, o) -> R3 i0 s' /\ o = [] /\ exists r, c = Done r.
 Proof.
-  intros Ec (A1 & A2 & A3 & A4) Ex. unfold exec_cmd in Ex. rewrite Ec in Ex. unfold request_pause in Ex.
-  rewrite A1, allowed_running_pausing in Ex. cbn [negb] in Ex. invc Ex.
-  split; [repeat split; assumption|]. split; [reflexivity | eexists; reflexivity].
+  intros Ec (A1 & A2 & A3 & A4) Ex. unfold exec_cmd in Ex. rewrite Ec in Ex. unfold request_pause_in_task, request_pause in Ex.
+  rewrite A1, allowed_running_pausing in Ex. cbn [negb] in Ex.
+  assert (Hmc : set_must_cancel (set_deferred s true) (must_cancel s) = set_deferred s true) by (destruct s; reflexivity).
+  destruct (resumable s); [|rewrite Hmc in Ex]; invc Ex;
+    (split; [repeat split; assumption|]; split; [reflexivity | eexists; reflexivity]).
 Qed.
 
 Ltac r3_solve Hr := first [exact Hr | eapply R3_r3; [|exact Hr]; reflexivity].
